@@ -12,6 +12,7 @@ import (
 	"strings"
 
 	"github.com/ansible/receptor/pkg/controlsvc"
+	"github.com/ansible/receptor/pkg/verifhook"
 )
 
 type workceptorCommandType struct {
@@ -292,25 +293,41 @@ func (c *workceptorCommand) ControlFunc(ctx context.Context, nc controlsvc.Netce
 		}
 		cfr := make(map[string]interface{})
 		cfr["unitid"] = worker.ID()
+		verifhook.CrashPoint("submit_after_alloc")
 		stdin, err := os.OpenFile(path.Join(worker.UnitDir(), "stdin"), os.O_CREATE+os.O_WRONLY, 0o600)
 		if err != nil {
 			return nil, err
 		}
+		verifhook.CrashPoint("submit_after_stdin_create")
 		worker.UpdateBasicStatus(WorkStatePending, "Waiting for Input Data", 0)
+		if verifhook.On {
+			verifhook.Emit("wu", "wu_ack", "id", worker.ID())
+		}
+		verifhook.CrashPoint("submit_before_ack")
 		err = cfo.ReadFromConn(fmt.Sprintf("Work unit created with ID %s. Send stdin data and EOF.\n", worker.ID()), stdin, &controlsvc.SocketConnIO{})
 		if err != nil {
 			worker.UpdateBasicStatus(WorkStateFailed, fmt.Sprintf("Error reading input data: %s", err), 0)
 
 			return nil, err
 		}
+		if verifhook.On {
+			verifhook.Emit("wu", "wu_stdin_done", "id", worker.ID())
+		}
+		verifhook.CrashPoint("submit_after_stdin_copy")
 		err = stdin.Close()
 		if err != nil {
 			worker.UpdateBasicStatus(WorkStateFailed, fmt.Sprintf("Error reading input data: %s", err), 0)
 
 			return nil, err
 		}
+		verifhook.CrashPoint("submit_after_stdin_close")
 		worker.UpdateBasicStatus(WorkStatePending, "Starting Worker", 0)
+		verifhook.CrashPoint("submit_before_start")
 		err = worker.Start()
+		if verifhook.On {
+			verifhook.Emit("wu", "wu_started", "id", worker.ID(), "ok", err == nil || IsPending(err))
+		}
+		verifhook.CrashPoint("submit_after_start")
 		if err != nil && !IsPending(err) {
 			worker.UpdateBasicStatus(WorkStateFailed, fmt.Sprintf("Error starting worker: %s", err), 0)
 
